@@ -315,6 +315,19 @@ func khLine(r *hx.Rand, g *hx.Gen) string {
 	for _, x := range f[1:] {
 		line += hx.Pick(r, []string{" ", " ", "\t", "  ", "\v", "\f"}) + x
 	}
+	switch r.Intn(10) { // carriage returns: everything from the first CR on is cut before the fields are split
+	case 0:
+		g.Stat("kh.cr-then-junk")
+		line += "\rjunk after CR"
+	case 1:
+		g.Stat("kh.cr-inside-line")
+		if i := strings.LastIndexAny(line, " \t"); i > 0 {
+			line = line[:i] + "\r" + line[i:]
+		}
+	case 2:
+		g.Stat("kh.trailing-cr")
+		line += "\r"
+	}
 	return line
 }
 
